@@ -704,6 +704,14 @@ fn c12(tier: &str) -> Vec<String> {
         }
         v.push(format!("mutex:sink=unix:via=sink:cap=70000:prog={}", prog));
     }
+    // with a scheduling point right after every unlock / send / store: a socket write made after the
+    // buffer lock was released is a step of its own and may be overtaken
+    for prog in ["EF.EF", "EEE.EE", "EEE.E", "EE.EF", "EFE.E"] {
+        for sink in ["spy", "unix", "udp"] {
+            v.push(format!("mutex:sink={}:via=sink:cap=6:prog={}:pp=1:P={}", sink, prog, if th { 4 } else { 3 }));
+        }
+        v.push(format!("mutex:sink=spy:via=client:cap=14:prog={}:pp=1:P={}", prog, if th { 4 } else { 3 }));
+    }
     // one client -> queuing sink -> buffered sink, flush racing the worker: order and conservation
     for prog in ["EEF", "EEEF", "EFEF", "EEFEF"] {
         for cap in [6, 16] {
